@@ -143,12 +143,15 @@ def timeRejected : Option Int → Bool
   | some t => decide (t < MinNanoTime ∨ t > MaxNanoTime)
   | none => false
 
+/-- the per-field checks of `pointKey`: empty name, NaN, ±Inf -/
+def fieldRejected (f : Bytes × FV) : Bool :=
+  f.1.isEmpty || (match f.2 with | .float b _ => floatNotFinite b | _ => false)
+
 /-- `NewPoint` (`pointKey`): the key and the field text -/
 def newPoint (p : PointIn) : Except Rej (Bytes × Bytes) :=
   if p.fields.isEmpty then .error .nofields
   else if timeRejected p.time then .error .time
-  else if p.fields.any (fun f => f.1.isEmpty || (match f.2 with | .float b _ => floatNotFinite b | _ => false)) then
-    .error .field
+  else if p.fields.any fieldRejected then .error .field
   else
     let key := makeKey p.name p.tags
     if p.fields.any (fun f => key.length + 4 + f.1.length > MaxKeyLength) then .error .maxkey
